@@ -1091,6 +1091,18 @@ void Exec::setup() {
   lim.max_message_size = plan.C("lim.msgsize", -1);
   lim.reply_timeout = plan.C("lim.reply_timeout", -1);
   lim.auth_timeout = plan.C("lim.auth_timeout", -1);
+  lim.max_outgoing_bytes = plan.C("lim.out_bytes", -1);
+  if (lim.max_outgoing_bytes >= 0) {
+    long limit = lim.max_outgoing_bytes;
+    md.queue_full = [this, limit](int r) {
+      // white-box read of the very number the bus compares (dbus_connection_get_outgoing_size of the bus-side connection)
+      for (DBusConnection *conn : w.live_conns) {
+        auto it = w.conn_to_client.find(conn);
+        if (it != w.conn_to_client.end() && it->second == r) return dbus_connection_get_outgoing_size(conn) > limit;
+      }
+      return false;
+    };
+  }
   lim.max_message_unix_fds = plan.C("lim.msg_fds", -1);
   lim.max_incoming_unix_fds = plan.C("lim.in_fds", -1);
   lim.max_outgoing_unix_fds = plan.C("lim.out_fds", -1);
